@@ -14,8 +14,10 @@ import (
 	"fmt"
 	"math"
 	"sort"
+	"strings"
 
 	"github.com/tobgu/qframe"
+	qcsv "github.com/tobgu/qframe/config/csv"
 	"github.com/tobgu/qframe/config/groupby"
 	"github.com/tobgu/qframe/config/newqf"
 	"github.com/tobgu/qframe/verifhook/grouphook"
@@ -452,6 +454,97 @@ func runAPI(s *hlib.Suite, r *hlib.Rng, n int) {
 	s.Add(term, desc, len(groups) >= 2)
 }
 
+// runCSVKeys: the same public API decision (GApi) on frames whose key columns were built by ReadCSV: their storage
+// (one byte blob per string column, possibly none at all when every cell is empty; enum columns with values in order
+// of appearance) differs from what qframe.New builds.  Key cells: a string column s from {"", a, b, \x00-free text}
+// (every cell empty one time in three), an int column k, both typed explicitly; EmptyNull on or off.
+func runCSVKeys(s *hlib.Suite, r *hlib.Rng, n int) {
+	emptyNull := r.Bool()
+	nulleq := r.Bool()
+	allEmpty := r.Chance(1, 2)
+	styp := []string{"string", "enum"}[r.Intn(2)]
+	svals := []string{"", "a", "b", "", "ab"}
+	var doc strings.Builder
+	doc.WriteString("rowid,k,s\n")
+	ks := make([]int, n)
+	ss := make([]string, n)
+	for i := 0; i < n; i++ {
+		ks[i] = r.Intn(3)
+		if !allEmpty {
+			ss[i] = svals[r.Intn(len(svals))]
+		}
+		fmt.Fprintf(&doc, "%d,%d,%s\n", i, ks[i], ss[i])
+	}
+	var qf qframe.QFrame
+	desc := map[string]interface{}{"kind": "api-csv", "null_equal": nulleq, "empty_null": emptyNull, "s_type": styp, "n": n, "doc": doc.String()}
+	if p, v := hlib.Recover(func() {
+		qf = qframe.ReadCSV(strings.NewReader(doc.String()), qcsv.Types(map[string]string{"rowid": "int", "k": "int", "s": styp}), qcsv.EmptyNull(emptyNull))
+	}); p || qf.Err != nil {
+		s.Fail(s.NextID(), fmt.Sprintf("ReadCSV of a well-formed document failed: %v %v", v, qf.Err), desc, "")
+		return
+	}
+	keyCols := [][]string{{"s"}, {"k", "s"}, {"s", "k"}}[r.Intn(3)]
+	desc["keys"] = keyCols
+	if r.Chance(1, 3) && n > 1 {
+		qf = qf.Sort(qframe.Order{Column: "rowid", Reverse: true})
+		desc["index"] = "reversed"
+	}
+	ids := qf.MustIntView("rowid").Slice()
+	var groups [][]int
+	var dist []int
+	failed := ""
+	if p, v := hlib.Recover(func() {
+		g := qf.GroupBy(groupby.Columns(keyCols...), groupby.Null(nulleq))
+		if g.Err != nil {
+			failed = "GroupBy error: " + g.Err.Error()
+			return
+		}
+		qfs, err := g.QFrames()
+		if err != nil {
+			failed = "QFrames error: " + err.Error()
+			return
+		}
+		for _, gq := range qfs {
+			groups = append(groups, append([]int{}, gq.MustIntView("rowid").Slice()...))
+		}
+		d := qf.Distinct(groupby.Columns(keyCols...), groupby.Null(nulleq))
+		if d.Err != nil {
+			failed = "Distinct error: " + d.Err.Error()
+			return
+		}
+		dist = append([]int{}, d.MustIntView("rowid").Slice()...)
+	}); p {
+		failed = fmt.Sprintf("panic: %v", v)
+	}
+	if failed != "" {
+		s.Fail(s.NextID(), failed, desc, "")
+		return
+	}
+	rows := make([]string, len(ids))
+	for i, id := range ids {
+		var cells []string
+		for _, nm := range keyCols {
+			if nm == "k" {
+				cells = append(cells, "CInt "+hlib.Z(int64(ks[id])))
+			} else if ss[id] == "" && emptyNull {
+				cells = append(cells, "CStr None") // null: the cell kind only matters for equality and nullness
+			} else {
+				cells = append(cells, "CStr "+hlib.OptStr(sp(ss[id])))
+			}
+		}
+		rows[i] = fmt.Sprintf("(%s, %s)", hlib.N(uint64(id)), hlib.List(cells))
+	}
+	sort.Slice(groups, func(a, b int) bool { return groups[a][0] < groups[b][0] })
+	sort.Ints(dist)
+	gs := make([]string, len(groups))
+	for i, g := range groups {
+		gs[i] = nListInt(g)
+	}
+	s.Count("api-csv/s_type=" + styp)
+	s.Count(fmt.Sprintf("api-csv/all_empty=%v", allEmpty))
+	s.Add(fmt.Sprintf("GApi %s %s %s %s", hlib.Bool(nulleq), hlib.List(rows), hlib.List(gs), nListInt(dist)), desc, len(groups) >= 2)
+}
+
 // runBig: public GroupBy / Distinct on frames with tens of thousands of distinct keys, so that the table passes
 // 2^16 and 2^17 slots.  Decided in Go only (the table model is quadratic in the table size): every key must form
 // exactly one group holding all its rows, Distinct must return one row per key.
@@ -595,7 +688,7 @@ func main() {
 		"clustered at the table end), rows equal to nothing (null under Null(false)) with random or colliding hashes, one or two " +
 		"comparables; cardinalities around every growth step 8->16->...; api cases: frames of int/float/bool/string/enum key " +
 		"columns from boundary pools (+-0, NaN payloads, nil/\"\"/\"\\x00\", enum nil), 1-3 key columns, both Null settings, " +
-		"identity/reversed/sliced/sorted index. Non-trivial = at least two groups; distinct by Coq term."
+		"identity/reversed/sliced/sorted index; api-csv cases: the key columns built by ReadCSV (typed string/enum column with empty cells, every cell empty one time in three, EmptyNull on/off). Non-trivial = at least two groups; distinct by Coq term."
 	r := hlib.NewRng(cfg.Seed)
 
 	maxStep := 1024
@@ -674,6 +767,10 @@ func main() {
 			}
 		}
 		fr := r.Fork()
+		if i%4 == 3 {
+			jobs = append(jobs, func() { runCSVKeys(s, fr, 1+n%40) })
+			continue
+		}
 		jobs = append(jobs, func() { runAPI(s, fr, n) })
 	}
 	// (b2) tables beyond 2^16 and 2^17 slots (Go-side decision), Distinct over all columns
